@@ -440,7 +440,7 @@ def run_check(check_id, tier="quick", base_seed=0, jobs=None, budget_s=None, run
             },
             "probes": agg["probes"],
             "metrics": agg["metrics"],
-            "components": COMPONENTS,
+            "components": dict(COMPONENTS, stub_conformance=_stub_conformance()),
             "determinism_selfcheck": det,
             "known_findings_matched": known_matched,
             "harness_errors": len(harness_errors),
@@ -472,6 +472,17 @@ def run_check(check_id, tier="quick", base_seed=0, jobs=None, budget_s=None, run
         print("HARNESS-ERROR: no runs completed")
         return 2
     return exit_code
+
+
+def _stub_conformance():
+    """Recorded result of `./check selftest stubconf` (the repository's own suites run on the stand-in)."""
+    p = os.path.join(VERIF, "selftest", "stub_conformance.json")
+    try:
+        with open(p) as f:
+            return [{"suite": x["suite"], "summary": x["summary"]} for x in json.load(f)] + [
+                "byte-exact vectors of test_parse_to_json_ast are checked by `./check selftest setup`"]
+    except Exception:  # noqa: BLE001
+        return "not recorded"
 
 
 COMPONENTS = {
